@@ -3,6 +3,7 @@ C14 — TCP framing buffer returns exactly the frames that were sent.
 Property theorems only; helper lemmas are in `Lemmas/Tcp.lean`.
 -/
 import StunVerif.Lemmas.Tcp
+import StunVerif.Gen.Fields
 namespace StunVerif.C14
 open StunVerif StunVerif.Tcp
 
@@ -76,5 +77,13 @@ example :
     (pushes ops).flatten = fs.flatMap frame ∧
       pulled (run [] ops).2 = [[], [7]] ∧ drain (run [] ops).1 = [[1, 2, 3]] := by
   decide
+
+/-- the framing constants of `TcpBuffer::pull_data` as read from /repo on this run: nothing is returned
+    with fewer than 2 buffered bytes, the length prefix is the first 2 bytes, a frame occupies
+    `prefix + 2` bytes, and the returned data starts after the first 2 bytes — RFC 4571's 16-bit
+    length prefix, as in `Tcp.pull` / `Tcp.frame` -/
+theorem src_framing : Gen.tcpFraming = [2, 2, 2, 2] ∧ ∀ f : Bytes, (Tcp.frame f).length = f.length + 2 := by
+  refine ⟨by decide, fun f => ?_⟩
+  simp [Tcp.frame, enc16]
 
 end StunVerif.C14
